@@ -198,9 +198,39 @@ def check(ctx):
         and dotted(sp[0].value.func) == "torch.logical_and" and any(isinstance(a, ast.Name) and a.id == "mask" for a in sp[0].value.args)
     ctx.ob("C19.b", "poisson_interval_online: spikes are masked by inputs > 0 (silence at zero intensity)", ok, "", f.where)
     f = funcs["poisson_interval"]
-    z = [n for n in walk_own(f.node) if isinstance(n, ast.Assign) and isinstance(n.targets[0], ast.Subscript) and ast.unparse(n.targets[0]) == "inputs[~mask]"
-         and isinstance(n.value, ast.Constant) and n.value.value == 0]
-    ctx.ob("C19.b", "poisson_interval: zero-intensity elements get rate 0 (their cumulative index stays 0 and is sliced off)", len(z) == 1, "", f.where)
+    # the rate handed to the sampler is (1000 / (f dt)) where f > 0 and exactly 0 elsewhere, however the masking is written
+    pois = [c for c in P.calls_in(f) if dotted(c.func) == "torch.poisson"]
+
+    def rate_before(stmts, stop_call):
+        b_ = terms.Builder(P, f, {}, inline_depth=0)
+        def run(block):
+            for st_ in block:
+                if isinstance(st_, ast.With):
+                    if run(st_.body):
+                        return True
+                    continue
+                if any(x is stop_call for x in ast.walk(st_)):
+                    return True
+                try:
+                    b_.stmt(st_)
+                except terms.Opaque:
+                    pass
+            return False
+        run(stmts)
+        return b_
+    ok = False
+    got = None
+    if len(pois) == 1 and pois[0].args:
+        b_ = rate_before(strip_doc(f.node.body), pois[0])
+        arg = pois[0].args[0]
+        base = arg.func.value if isinstance(arg, ast.Call) and isinstance(arg.func, ast.Attribute) and arg.func.attr in ("expand", "expand_as", "repeat") else arg
+        got = b_.t(base)
+        want = terms.Builder(P, f, {}, inline_depth=0)
+        for st_ in ast.parse("mask = inputs > 0\ninputs = (1 / inputs) * (1000.0 / step_time)\ninputs[~mask] = 0").body:
+            want.stmt(st_)
+        ok = isinstance(got, nf.Rat) and nf.equal(got, want.env["inputs"])
+    ctx.ob("C19.b", "poisson_interval: zero-intensity elements get rate 0 (their cumulative index stays 0 and is sliced off)", ok,
+           f"rate handed to the sampler: {nf.show(got)[:160] if got is not None else 'not found'}", f.where)
     if unknown:
         ctx.note(f"ops without a transfer function (evaluated as unknown, never a pass): {sorted(unknown)}")
 
